@@ -159,7 +159,12 @@ def run(ctx, workers=3, with_dynamics=True):
     for d in units(with_dynamics):
         jobs.append(lambda d=d: cbmc_unit(ctx, d["name"], [unit_c], d["h"], enforce=d["enf"], replace=d["repl"], cbmc_args=ARGS if d["plain"] else ARGS_DFCC, no_dfcc=d["plain"],
                                           require_props=d["req"], min_obligations=d["minob"], function=d["fn"], timeout=240, cex_vars=CEX_VARS))
-    jobs.append(lambda: cover_unit(ctx, "lock.cover", [unit_c], "h_cover", cc_args=["-DCOVER_ONLY"], expect_min=7, function="lock protocol: contract preconditions"))
+    ncover = 7
+    if with_dynamics:
+        import part_c10_lock_dyn as DYN
+        ncover += DYN.COVER_POINTS
+        DYN.notes(ctx)
+    jobs.append(lambda: cover_unit(ctx, "lock.cover", [unit_c], "h_cover", cc_args=["-DCOVER_ONLY"], expect_min=ncover, function="lock protocol / realizeDynamics: contract and harness preconditions"))
     t0 = time.time()
     parallel(jobs, workers=workers)
     ctx.extra["lock_part"] = dict(units=len(jobs), wall_s=round(time.time() - t0, 1), workers=workers)
